@@ -36,6 +36,3 @@
 (define-fun Coins_listed ((c Coins)) Bool
   (and (forall ((i Int)) (! (=> (and (<= 0 i) (< i (Coins_len c))) (and (> (T_sdk_Coin_Amount (Coins_at c i)) 0) (valid_denom (T_sdk_Coin_Denom (Coins_at c i))) (= (Coins_amt c (T_sdk_Coin_Denom (Coins_at c i))) (T_sdk_Coin_Amount (Coins_at c i))))) :pattern ((Coins_at c i))))
        (forall ((i Int) (j Int)) (! (=> (and (<= 0 i) (< i j) (< j (Coins_len c))) (not (= (T_sdk_Coin_Denom (Coins_at c i)) (T_sdk_Coin_Denom (Coins_at c j))))) :pattern ((Coins_at c i) (Coins_at c j))))))
-; a valid (IsValid) Coins value is a list of strictly positive coins with distinct valid denominations whose amounts are
-; the amounts of the value (representation of sdk.Coins)
-(assert (forall ((c Coins)) (! (=> (Coins_wf c) (and (Coins_valid c) (Coins_listed c))) :pattern ((Coins_wf c)))))
